@@ -101,6 +101,7 @@ def run(repo, rep, tier):
     regex_termination_rule(repo, rep)
     pull_result_invariant(repo, rep)
     unbounded_int_text_rule(repo, rep)
+    cleanup_reads_bound_locals(repo, rep)
     r1 = rep.rule('C02.R1', 'only pywbem.Error escapes the reply path '
                   '(raises, data-dependent asserts)')
     r3 = rep.rule('C02.R3', 'attribute lookups are covered by check_node')
@@ -1610,3 +1611,42 @@ def _loop_constants(func, name):
     if n_store != n_for or not vals:
         return None
     return vals
+
+
+def cleanup_reads_bound_locals(repo, rep):
+    """C02.R12: what the exception handlers and the finally clause of an
+    operation read is bound on every path that reaches them.  A result
+    variable that is first bound by the statement that can fail (the
+    request) is unbound in the finally clause exactly when the request
+    failed: the UnboundLocalError raised there replaces the pywbem error
+    (and its request_data / response_data) the caller should get."""
+    from ..flow import possibly_unbound
+    r12 = rep.rule('C02.R12', 'handlers and finally clauses of the operations '
+                   'read only locals that are bound on every path')
+    n = 0
+    for op in operations(repo):
+        t = op.main_try
+        if t is None:
+            continue
+        n += 1
+        r12.sites += 1
+        r12.functions.add(op.func.fq)
+        cleanup = list(t.finalbody) + [s_ for h in t.handlers
+                                       for s_ in h.body]
+        ub = [(nm, node) for nm, _st, node in possibly_unbound(op.func)
+              if any(node is x for c in cleanup for x in ast.walk(c))]
+        r12.ob(not ub, op.func.name)
+        seen = set()
+        for nm, node in ub:
+            if nm in seen:
+                continue
+            seen.add(nm)
+            rep.finding(r12, op.func.qualname, nm, 'unbound-in-cleanup', OPS,
+                        node.lineno,
+                        'local %r is read in the handlers / finally clause '
+                        'but is bound only after the request succeeded: '
+                        'when the request fails, UnboundLocalError replaces '
+                        'the pywbem error of the operation' % nm)
+    if n < 30:
+        raise AnalysisError('C02.R12: only %d operations with a main try'
+                            % n)
